@@ -94,13 +94,12 @@ func probe(kind string, opcode int, bcast bool, nm uint16, preRegisterR bool, in
 	}
 	o.rAfter = resolvable(c, 130, "RNAME", ipB)
 	o.qAfter = resolvable(c, 140, "QNAME", ipA)
-	// a packet with the response bit set must not take the server down
+	// a packet with the response bit set must not take the server down. Whether the server answers such a packet
+	// or drops it silently is its own business, so no reply to it is waited for: a plain query sent after it on
+	// the same socket / connection is the barrier (once that is answered the server has consumed the packet; a
+	// connection the server closes on the offending packet ends the wait at once), then a fresh client asks again.
 	c.send(req{ID: 0x5151, Opcode: opcode, Bcast: bcast, NM: nm, Resp: true, QName: "QNAME", RRName: "RNAME", RRIP: ipB}.bytes(), nil)
-	if c.kind == "udp" {
-		c.recv(50 * time.Millisecond)
-	} else {
-		c.recv(100 * time.Millisecond)
-	}
+	resolvable(c, 0x5152, "QNAME", ipA)
 	c2, err2 := dial(srv)
 	if err2 == nil {
 		o.serverStillAlive = resolvable(c2, 150, "QNAME", ipA)
@@ -131,6 +130,7 @@ func checkOpcode(c opCase) []vf.Finding {
 	subject := fmt.Sprintf("%s/opcode-%d", c.Kind, c.Opcode)
 	var traces []string
 	var last [2]obs
+	var positive []string // the probes that were answered with rcode 0
 	for _, inAddl := range []bool{false, true} {
 		absent, err := probe(c.Kind, c.Opcode, c.Bcast, c.NM, false, inAddl)
 		if err != nil {
@@ -147,6 +147,11 @@ func checkOpcode(c opCase) []vf.Finding {
 			return []vf.Finding{vf.F(subject, "server-dead-after-response-bit-packet", "no answer to a plain query after a packet with the response bit set")}
 		}
 		last = [2]obs{absent, present}
+		for k, o := range last {
+			if o.replied && o.rcode == 0 {
+				positive = append(positive, fmt.Sprintf("%s beforehand, in the %s section", [2]string{"absent", "present"}[k], map[bool]string{false: "answer", true: "additional"}[inAddl]))
+			}
+		}
 		traces = append(traces, traceOf(absent, present))
 	}
 	got := "none"
@@ -164,11 +169,11 @@ func checkOpcode(c opCase) []vf.Finding {
 		return []vf.Finding{vf.F(subject, "routed-to-"+got+"-handler-want-"+want, "%s", desc)}
 	}
 	if want == "none" {
-		// no handler trace; additionally the rcode must not be one a handler produces
-		for _, o := range last {
-			if o.replied && !(o.rcode == 1 || o.rcode == 4 || o.rcode == 5) {
-				return []vf.Finding{vf.F(subject, "unassigned-opcode-answered-with-handler-rcode", "%s", desc)}
-			}
+		// RFC 1002 assigns no handler: none has left a trace on the name table (above), and the request must not be
+		// answered positively either. Which error code the server answers with, or whether it answers at all, is
+		// not stated by the property.
+		if len(positive) > 0 {
+			return []vf.Finding{vf.F(subject, "unassigned-opcode-answered-positively", "%s; answered with rcode 0 when the record was %s", desc, strings.Join(positive, "; "))}
 		}
 	}
 	return nil
@@ -550,7 +555,17 @@ type llmnrCase struct {
 func llName(i int) string { return fmt.Sprintf("host-%03d.test", i) }
 
 func checkLLMNRServer(c llmnrCase) []vf.Finding {
-	baseline := len(libGoroutines())
+	warmUp("llmnr-server")
+	base := libGoroutines()
+	fs := runLLMNRServer(c)
+	if left := leaked(base, func() { runLLMNRServer(c) }); left != nil {
+		fs = append(fs, vf.F("llmnr.Server", "goroutines-leaked-after-close", "%v", left))
+	}
+	return fs
+}
+
+// runLLMNRServer is the case without the goroutine accounting around it.
+func runLLMNRServer(c llmnrCase) []vf.Finding {
 	handler := llmnr.HandlerFunc(func(s *llmnr.Server, remote net.Addr, w llmnr.ResponseWriter, m *llmnr.Message) bool {
 		r := llmnr.CreateResponseFromMessage(m)
 		for _, q := range m.Questions {
@@ -639,9 +654,6 @@ func checkLLMNRServer(c llmnrCase) []vf.Finding {
 		fs = append(fs, vf.F("llmnr.Server.Serve", "serve-loop-does-not-exit-after-close", "still running %v after Close", stopBudget))
 	}
 	wg.Wait()
-	if left := waitNoLibGoroutines(baseline, 2*time.Second); left != nil {
-		fs = append(fs, vf.F("llmnr.Server", "goroutines-leaked-after-close", "%v", left))
-	}
 	return fs
 }
 
@@ -664,7 +676,17 @@ type clientCase struct {
 }
 
 func checkLLMNRClient(c clientCase) []vf.Finding {
-	baseline := len(libGoroutines())
+	warmUp("llmnr-client")
+	base := libGoroutines()
+	fs := runLLMNRClient(c)
+	if left := leaked(base, func() { runLLMNRClient(c) }); left != nil {
+		fs = append(fs, vf.F("llmnr.Client", "goroutines-leaked-after-close", "%v", left))
+	}
+	return fs
+}
+
+// runLLMNRClient is the case without the goroutine accounting around it.
+func runLLMNRClient(c clientCase) []vf.Finding {
 	cl, err := llmnr.NewClient()
 	if err != nil {
 		return []vf.Finding{vf.F("harness", "cannot-create-llmnr-client", "%v", err)}
@@ -735,9 +757,6 @@ func checkLLMNRClient(c clientCase) []vf.Finding {
 	if !ok {
 		fs = append(fs, vf.F("llmnr.Client.Close", "close-does-not-return", "after %v", took))
 	}
-	if left := waitNoLibGoroutines(baseline, 2*time.Second); left != nil {
-		fs = append(fs, vf.F("llmnr.Client", "goroutines-leaked-after-close", "%v", left))
-	}
 	return fs
 }
 
@@ -784,8 +803,20 @@ func keyID(k any) (uint16, bool) {
 var queryConclusive bool
 
 func checkLLMNRQuery(c queryCase) []vf.Finding {
+	warmUp("llmnr-client")
+	base := libGoroutines()
+	fs := runLLMNRQuery(c)
+	conclusive := queryConclusive
+	if left := leaked(base, func() { runLLMNRQuery(c) }); left != nil {
+		fs = append(fs, vf.F("llmnr.Client", "goroutines-leaked-after-close", "%v", left))
+	}
+	queryConclusive = conclusive // of the case itself, not of its repetition
+	return fs
+}
+
+// runLLMNRQuery is the case without the goroutine accounting around it.
+func runLLMNRQuery(c queryCase) []vf.Finding {
 	queryConclusive = false
-	baseline := len(libGoroutines())
 	cl, err := llmnr.NewClient()
 	if err != nil {
 		return []vf.Finding{vf.F("harness", "cannot-create-llmnr-client", "%v", err)}
@@ -877,9 +908,6 @@ func checkLLMNRQuery(c queryCase) []vf.Finding {
 	if !ok {
 		fs = append(fs, vf.F("llmnr.Client.Close", "close-does-not-return", "after %v", took))
 	}
-	if left := waitNoLibGoroutines(baseline, 2*time.Second); left != nil {
-		fs = append(fs, vf.F("llmnr.Client", "goroutines-leaked-after-close", "%v", left))
-	}
 	return fs
 }
 
@@ -934,7 +962,23 @@ func guarded(fn func()) (returned bool, panicked string) {
 }
 
 func checkTwice(c twiceCase) []vf.Finding {
-	baseline := len(libGoroutines())
+	warmUp(c.Target)
+	base := libGoroutines()
+	fs := runTwice(c)
+	if len(fs) == 0 {
+		if left := leaked(base, func() { runTwice(c) }); left != nil {
+			subject := c.Target + ".Stop"
+			if strings.HasPrefix(c.Target, "llmnr-") {
+				subject = map[string]string{"llmnr-client": "llmnr.Client.Close", "llmnr-server": "llmnr.Server.Close"}[c.Target]
+			}
+			fs = append(fs, vf.F(subject, "goroutines-leaked-after-stop", "%s: %v", c.Mode, left))
+		}
+	}
+	return fs
+}
+
+// runTwice is the case without the goroutine accounting around it.
+func runTwice(c twiceCase) []vf.Finding {
 	var stop func()
 	subject := c.Target + ".Stop"
 	switch c.Target {
@@ -1015,11 +1059,6 @@ func checkTwice(c twiceCase) []vf.Finding {
 			fs = fs[:1]
 		}
 	}
-	if len(fs) == 0 {
-		if left := waitNoLibGoroutines(baseline, 2*time.Second); left != nil {
-			fs = append(fs, vf.F(subject, "goroutines-leaked-after-stop", "%s: %v", c.Mode, left))
-		}
-	}
 	return fs
 }
 
@@ -1049,7 +1088,25 @@ type stopCase struct {
 }
 
 func runStop(c stopCase) (finding *vf.Finding, overrun bool) {
-	baseline := len(libGoroutines())
+	warmUp(c.Kind)
+	base := libGoroutines()
+	if f, o := runStopOnce(c); f != nil {
+		return f, o
+	}
+	if left := leaked(base, func() { runStopOnce(c) }); left != nil {
+		var f vf.Finding
+		if c.NoStart {
+			f = vf.F(c.Kind, "goroutines-leaked-after-stop", "%v", left)
+		} else {
+			f = vf.F(c.Kind, "goroutines-leaked-after-stop", "%v (clients %d, delay %dus, idle tcp %d)", left, c.Clients, c.DelayUS, c.IdleTCP)
+		}
+		return &f, false
+	}
+	return nil, false
+}
+
+// runStopOnce is the case without the goroutine accounting around it.
+func runStopOnce(c stopCase) (finding *vf.Finding, overrun bool) {
 	if c.NoStart {
 		// Stop on a server that was created but never started must return too
 		srv, err := startServer(c.Kind)
@@ -1061,10 +1118,6 @@ func runStop(c stopCase) (finding *vf.Finding, overrun bool) {
 		if !ok {
 			f := vf.F(c.Kind+".Stop", "stop-does-not-return", "immediately after Start: %v", took)
 			return &f, true
-		}
-		if left := waitNoLibGoroutines(baseline, 2*time.Second); left != nil {
-			f := vf.F(c.Kind, "goroutines-leaked-after-stop", "%v", left)
-			return &f, false
 		}
 		return nil, false
 	}
@@ -1112,10 +1165,6 @@ func runStop(c stopCase) (finding *vf.Finding, overrun bool) {
 	if !ok {
 		f := vf.F(c.Kind+".Stop", "stop-does-not-return", "Stop still blocked after %v (clients %d, delay %dus, idle tcp %d)", took, c.Clients, c.DelayUS, c.IdleTCP)
 		return &f, true
-	}
-	if left := waitNoLibGoroutines(baseline, 2*time.Second); left != nil {
-		f := vf.F(c.Kind, "goroutines-leaked-after-stop", "%v (clients %d, delay %dus, idle tcp %d)", left, c.Clients, c.DelayUS, c.IdleTCP)
-		return &f, false
 	}
 	return nil, false
 }
